@@ -70,6 +70,10 @@ def run(ctx: Ctx, rep: Report) -> None:
     circuit_extra.append_spec(ctx, rep)
     circuit_extra.insert_spec(ctx, rep)
     circuit_extra.straighten_shadow_spec(ctx, rep)
+    # unfolding inlines the block with the operation's parameters
+    from ..rules.paramflow import rule_paramflow
+    for name in ('unfold', 'unfold_all'):
+        rule_paramflow(ctx, rep, f'bqskit/ir/circuit.py:Circuit.{name}', {})
 
 
 # ---------------------------------------------------------------------------
